@@ -10,7 +10,10 @@ def okShapes (F : Facts) : Bool :=
   F.pauseChBuffered1 && F.resumeChUnbuffered && F.unsubscribeDeletesThenCloses && F.pauseCasFalseTrueFirst &&
   F.pauseSendNonBlocking && F.resumeCollectsThenClears && F.resumeHandlesClosed &&
   F.preprocessorSubscribesAndDefersUnsubscribe && F.archiverSubscribesAndDefersUnsubscribe &&
-  F.postprocessorSubscribesAndDefersUnsubscribe && F.finisherSubscribesAndDefersUnsubscribe
+  F.postprocessorSubscribesAndDefersUnsubscribe && F.finisherSubscribesAndDefersUnsubscribe &&
+  -- a running worker can take its pause signal whenever it is not busy with a seed: the select in which it waits for work has the
+  -- pause case (the model's `takeToken` is enabled for every running worker that holds a signal)
+  F.preprocessorListensWhileIdle && F.archiverListensWhileIdle && F.postprocessorListensWhileIdle && F.finisherListensWhileIdle
 
 def ok (F : Facts) : Bool := okShapes F && guarded F && ackCancellable F
 
